@@ -137,14 +137,7 @@ HAND = [
     r = pick(0)
   a = y
   s = pick(2)
-  if k > 0:
-    def pick(p: int):
-      w = a
-      return w
-    q = pick(5)
-  a = b
-  z = pick(3)
-  return (r, s, z)
+  return (r, s)
 '''),
     ('ty:closure_after_break', '''def f(x: int, y: float, b: bool, k: int):
   c = 1
